@@ -792,4 +792,24 @@ theorem stack_slice_dates' (cs : CS) (scalar : Bool) (x0 : Slab × Int) (rest : 
   rw [pyIndex_nat _ _ hi]
   simp [listGetD, relDates, List.getElem?_map, List.getElem?_eq_getElem hi, sliceTime, hi]
 
+theorem append_offset_fields (im other s : Img) (off : Rat) (h : im.append other (some off) = .ok s)
+    (ht : anyNone im.time = false) (ht' : anyNone other.time = false) :
+    s.time = im.time ++ other.time.map (fun t => t.map (· + off)) ∧ s.date = im.date ++ other.date ∧
+      s.slabs = im.slabs ++ other.slabs ∧ s.cs = im.cs ∧ s.scalar = im.scalar ∧ s.ref = im.ref ∧ s.series = true := by
+  unfold Img.append at h
+  simp only [bind, Except.bind, pure, Except.pure, ht, ht', Bool.or_self, Bool.false_eq_true, if_false,
+    Option.isNone_some, Bool.false_and, Option.getD_some, throw, throwThe, MonadExceptOf.throw] at h
+  repeat' (split at h)
+  all_goals first | (injection h with h; subst h; exact ⟨rfl, rfl, rfl, rfl, rfl, rfl, rfl⟩) | (injection h)
+
+theorem timeInterval_fields (im im' : Img) (sl : PySlice) (h : im.timeInterval sl = .ok im') :
+    im'.time = Patch.sliceL im.time (sliceIdx im.slabs.length sl) ∧
+    im'.date = Patch.sliceL im.date (sliceIdx im.slabs.length sl) ∧
+    im'.slabs = Patch.sliceL im.slabs (sliceIdx im.slabs.length sl) ∧ im'.ref = im.ref ∧ im'.cs = im.cs := by
+  unfold Img.timeInterval at h
+  simp only [bind, Except.bind, pure, Except.pure] at h
+  split at h
+  · simp [throw, throwThe, MonadExceptOf.throw] at h
+  · injection h with h; subst h; exact ⟨rfl, rfl, rfl, rfl, rfl⟩
+
 end Darsia.Im
